@@ -22,7 +22,7 @@ ASSUMPTIONS = [
 ]
 MONITORS = "TransferResult vs os.walk listings of the destination before/after, per-oid upload log, source byte snapshot and audit-hook mutation log on the source"
 REQUIRED_COUNTERS = [
-    "ids_as/iterator", "ids_as/generator", "rounds_with_hardlink_option", "rounds_read_only_destination", "rounds_source_index_clear_fails", "rounds_source_vanishes", "corrupt_parseable_dir_objects", "rounds_with_index", "rounds_dest_with_state", "rounds", "rounds_with_failures", "rounds_with_preexisting", "rounds_missing_both_sides", "rounds_verify_corrupt_source",
+    "wide_directory_scenarios", "rounds_destination_of_other_md5_flavour", "ids_as/iterator", "ids_as/generator", "rounds_with_hardlink_option", "rounds_read_only_destination", "rounds_source_index_clear_fails", "rounds_source_vanishes", "corrupt_parseable_dir_objects", "rounds_with_index", "rounds_dest_with_state", "rounds", "rounds_with_failures", "rounds_with_preexisting", "rounds_missing_both_sides", "rounds_verify_corrupt_source",
     "transferred_objects_checked", "source_snapshots_compared", "rounds_expanded", "rounds_local_dest", "rounds_remote_dest",
 ]
 
@@ -103,7 +103,12 @@ def run_shard(ctx):
             d = ctx.fresh("r")
             variant = rng.choice(["plain", "plain", "missing-both", "verify-corrupt"])
             dest_kind = rng.choice(["remote", "local", "local"]) if variant != "verify-corrupt" else rng.choice(["remote", "local", "base"])
-            sc = Scenario(ctx, rng, d, dest_kind=dest_kind, ntrees=rng.choice([1, 1, 2, 3]))
+            wide = rng.choice([257, 300, 520]) if (case % 16 == ctx.shard % 16 and case < 16 * (1 if ctx.tier == "quick" else 3) and variant == "plain") else 0
+            sc = Scenario(ctx, rng, d, dest_kind=dest_kind, ntrees=1 if wide else rng.choice([1, 1, 2, 3]), wide=wide)
+            if wide:
+                res.count("wide_directory_scenarios")
+            # the destination may be a store of the other md5 flavour (legacy remote for a new cache, or the reverse)
+            other_name = variant == "plain" and rng.random() < 0.15
             expanded = rng.random() < 0.4
             jobs = rng.choice([1, 4])
             dest_state = rng.random() < 0.5
@@ -197,6 +202,9 @@ def run_shard(ctx):
 
                     dcfg["state"] = mk_state(d, os.path.join(d, "dest-state"))
                     res.count("rounds_dest_with_state")
+                if other_name:
+                    dcfg["hash_name"] = "md5-dos2unix"
+                    res.count("rounds_destination_of_other_md5_flavour")
                 sc.dest = sc._mk_dest(**dcfg)
                 res.evaluated()
                 res.count("rounds")
